@@ -5,6 +5,7 @@ use super::refjudge::*;
 use super::Monitor;
 use crate::core::*;
 use crate::gen::*;
+use crate::prng::Rng;
 use crate::sut;
 use crate::syntax::*;
 use crate::val::{Ev, Outcome, Val};
@@ -103,6 +104,34 @@ impl Monitor for C11 {
                     let name = *rng.pick(&names);
                     let s = format!("{}({})", name, args.join(","));
                     ctx.check(&Case::new(ev, "value", &s, z), &|c, st| self.judge(c, st));
+                }
+            }
+            // arguments that are expressions - in particular aggregates themselves, of the same and of
+            // other kinds, one to three levels deep, in any position: "the evaluated arguments"
+            let n_nest = ctx.tier.pick(20_000u64, 400_000);
+            for i in 0..n_nest {
+                if ctx.mine() {
+                    let mut rng = ctx.rng(&format!("nested/{}", ev.name()), i);
+                    fn list(rng: &mut Rng, names: &[&'static str], pool: &[String], depth: usize) -> String {
+                        let len = 1 + rng.below(5);
+                        let args: Vec<String> = (0..len)
+                            .map(|_| {
+                                if depth > 0 && rng.chance(1, 3) {
+                                    list(rng, names, pool, depth - 1)
+                                } else if rng.chance(1, 6) {
+                                    format!("{}+{}", rng.pick(pool), rng.pick(pool))
+                                } else {
+                                    rng.pick(pool).clone()
+                                }
+                            })
+                            .collect();
+                        format!("{}({})", *rng.pick(names), args.join(","))
+                    }
+                    let depth = 1 + rng.below(3);
+                    let s = list(&mut rng, &names, &pool, depth);
+                    if s.matches('(').count() > 1 {
+                        ctx.check(&Case::new(ev, "value", &s, z), &|c, st| self.judge(c, st));
+                    }
                 }
             }
             // empty lists and failing arguments
